@@ -8,7 +8,9 @@ Cases (JSON, terms/types in the vlib.codec encoding):
           {"op":"print","t":term,"theory":th,"unicode":b,"highlight":b,"line_length":..}   print (and re-parse) another term
           {"op":"share","how":"eq"|"sub"|"lam"|"thm","unicode":b}     print a term / sequent built from the SAME Python
                                                                       object as the main term
-        fresh: also require the text to be what a never-used process prints for the same term and settings
+        fresh: also compare two never-used processes - one runs the prefix and then prints the term, the other prints
+               the term only - and require the same text (also done when the bound names in the text are not variants
+               of the term's own binder names)
   {"kind":"type",  "theory":th, "T":type, "unicode":b, "highlight":b}
   {"kind":"thm",   "theory":th, "hyps":[term], "prop":term, "unicode":b, "highlight":b, "line_length":..}
   {"kind":"inst",  "theory":th, "inst":{name:term}, "unicode":b, "highlight":b}
@@ -76,7 +78,7 @@ SHRINK_SECONDS = 25
 THEORIES = ['logic', 'nat', 'int', 'real', 'set', 'list', 'function', 'string', 'interval_arith']
 # theories whose signature contains the first one's (used for "same term under another theory")
 SUPERSETS = {
-    'logic': ['nat'], 'nat': ['int'], 'int': ['real'], 'real': ['interval_arith'], 'set': ['list'], 'list': ['string'],
+    'logic': ['nat'], 'nat': ['int'], 'int': [], 'real': ['interval_arith'], 'set': ['list'], 'list': ['string'],
     'function': ['set'], 'string': [], 'interval_arith': [],
 }
 ATOMS = {
@@ -573,26 +575,36 @@ def term_classes(j, text):
 
 _worker_starts = {}
 MAX_WORKER_STARTS = 2
-MAX_SCREEN_CONFIRMATIONS = 3
+MAX_SCREEN_CONFIRMATIONS = 2
 
 
-def get_worker(thname):
+def get_worker(thname, extra=()):
     """The fresh-process printing service for a theory (started at most MAX_WORKER_STARTS times per process; must be
-    started OUTSIDE any time_limit - see ensure_worker)."""
+    started OUTSIDE any time_limit - see ensure_worker).  extra: other theories that prefix ops need."""
     w = _workers.get(thname)
-    if w is not None and w.proc is not None:
+    if w is not None and w.proc is not None and set(extra) <= set(w.extra):
         return w
-    if _worker_starts.get(thname, 0) >= MAX_WORKER_STARTS:
+    if _worker_starts.get(thname, 0) >= MAX_WORKER_STARTS + (1 if w is not None else 0):
         raise L.WorkerFailed('worker for %s could not be (re)started' % thname)
     _worker_starts[thname] = _worker_starts.get(thname, 0) + 1
-    w = L.Worker(thname, SUPERSETS.get(thname, []))
+    if w is not None:
+        extra = sorted(set(extra) | set(w.extra))
+        w.close()
+    w = L.Worker(thname, sorted(extra))
+    w.extra = sorted(extra)
     _workers[thname] = w
     return w
 
 
-def ensure_worker(thname):
+def prefix_theories(case):
+    th = case.get('theory')
+    return sorted(set(op.get('theory') for op in (case.get('prefix') or [])
+                      if isinstance(op, dict) and op.get('op') == 'print' and op.get('theory') in _S and op.get('theory') != th))
+
+
+def ensure_worker(thname, extra=()):
     try:
-        get_worker(thname)
+        get_worker(thname, extra)
         return True
     except (Timeout, RecursionError):
         raise
@@ -665,7 +677,7 @@ def check_term(case, H):
                 H.note('hist-screen-hit-not-sent-to-fresh-process')
         else:
             try:
-                answers = get_worker(thname).ask_many(reqs)
+                answers = get_worker(thname, prefix_theories(case)).ask_many(reqs)
             except (Timeout, RecursionError):
                 raise
             except Exception as e:
@@ -1196,8 +1208,8 @@ def run_case(case, H):
     if not isinstance(case, dict):
         raise CaseInvalid('case')
     k = case.get('kind')
-    if k == 'term' and case.get('fresh') and case.get('theory') in _S:
-        ensure_worker(case['theory'])      # outside the time limit: start-up takes seconds
+    if k == 'term' and case.get('prefix') and case.get('theory') in _S and getattr(H, 'c07_deferred', None) is None:
+        ensure_worker(case['theory'], prefix_theories(case))      # outside the time limit: start-up takes seconds
     try:
         with time_limit(60):
             if k == 'term':
@@ -1478,7 +1490,7 @@ def hist_strategy(thname):
             else:
                 prefix.append({'op': 'print', 't': draw(rand_term(thname, max_fuel=2)), 'theory': thname, 'unicode': puni})
         return {'kind': 'term', 'theory': thname, 't': j, 'unicode': uni, 'highlight': hl, 'line_length': ll,
-                'prefix': prefix, 'fresh': draw(st.sampled_from([True] + [False] * 15))}
+                'prefix': prefix, 'fresh': draw(st.sampled_from([True] + [False] * 19))}
     return s()
 
 
@@ -1515,12 +1527,18 @@ def shards(tier):
     quick = tier == 'quick'
     mul = 1 if quick else 10
     out = []
+    # (e) history first: these shards mostly wait for their fresh-process service
+    for th in THEORIES:
+        out.append({'kind': 'hist', 'theory': th, 'n': (60 if quick else 800), 'i': 0})
+    # (d) other syntactic categories
+    for kind, n, k in (('item', 1000, 4), ('thm', 800, 3), ('type', 700, 2), ('inst', 300, 2), ('tyinst', 200, 1)):
+        for i, c in enumerate(harness.split(n * mul, k if quick else 3 * k)):
+            out.append({'kind': kind, 'n': c, 'i': i})
     # (a) enumerated ladder pairs
-    parts = 12 if quick else 24
     for th in LADDER_THEORIES:
-        p = parts if th == 'interval_arith' else 2
+        p = (12 if quick else 24) if th == 'interval_arith' else (4 if quick else 8)
         for i in range(p):
-            out.append({'kind': 'pairs', 'theory': th, 'part': i, 'parts': p, 'stride': 1})
+            out.append({'kind': 'pairs', 'theory': th, 'part': i, 'parts': p})
     # (a') random deeper ladders
     for th, n, k in (('interval_arith', 2100, 6), ('string', 400, 1)):
         for i, c in enumerate(harness.split(n * mul, k * (2 if not quick else 1))):
@@ -1530,17 +1548,9 @@ def shards(tier):
         n = 800 if th in ('real', 'set', 'list') else 560
         for i, c in enumerate(harness.split(n * mul, 2 if quick else 6)):
             out.append({'kind': 'rand', 'theory': th, 'n': c, 'i': i})
-    # (c) other syntactic categories
-    for kind, n in (('type', 700), ('thm', 800), ('inst', 300), ('tyinst', 200), ('item', 1000)):
-        k = 2 if quick else 6
-        for i, c in enumerate(harness.split(n * mul, k)):
-            out.append({'kind': kind, 'n': c, 'i': i})
-    # (e) the statements of the library itself (what real callers print and parse)
+    # (c) the statements of the library itself (what real callers print and parse)
     for th in THEORIES:
         out.append({'kind': 'library', 'theory': th})
-    # (d) history
-    for th in THEORIES:
-        out.append({'kind': 'hist', 'theory': th, 'n': (70 if quick else 800), 'i': 0})
     return out
 
 
@@ -1639,7 +1649,8 @@ def run_shard(desc, seed, tier, H):
             pending, H.c07_deferred = H.c07_deferred, None
             if pending:
                 try:
-                    answers = get_worker(th).ask_many([q for p in pending for q in p[1]])
+                    extra = sorted(set(x for p in pending for x in prefix_theories(p[0])))
+                    answers = get_worker(th, extra).ask_many([q for p in pending for q in p[1]])
                 except Exception:
                     answers = None
                     for _ in pending:
